@@ -489,6 +489,37 @@ def if_rule(run, quick):
         run.property_failure("c04:switch-differs-from-its-rule", "expand(%r) gave %r; Model.FlatCall.switch_result says otherwise"
                              % (c["page"], res[idx[b]]["out"]), {"lib": [], "page": c["page"], "opts": {}, "title": "Tt"})
     run.extra["switch_calls_checked_against_the_rule"] = len(coq_cases)
+    # ---- #switch with keyed cases and a final item without "=" (the default, whatever "#default=" said: fix 4429042)
+    cases = []
+    LASTS = ["d", " d ", "", "\nd\n", "#default", "a", "*li", "1", " "]
+    for _ in range(250 if quick else 4000):
+        x = rng.choice(["a", " a", "b", "1", "01", "2.0", "zz", "", "A", "a b"])
+        kvs = [(rng.choice(KEYS), rng.choice([v for v in VALS if "|" not in v])) for _ in range(rng.randint(0, 4))]
+        cases.append({"lib": [], "page": "{{#switch:" + "|".join([x] + [k + "=" + v for k, v in kvs] + [rng.choice(LASTS)]) + "}}", "opts": {}, "title": "Tt"})
+    res = lib.run_impl("expandlib", cases, shards=lib.NCPU)
+    coq_cases, idx = [], []
+    for i, (c, r) in enumerate(zip(cases, res)):
+        run.count({"switch": c["page"]}, "#default" in c["page"].lower(), "switch-trailing-default")
+        if r.get("outcome") != "ok":
+            run.property_failure("switch:%s:%s" % (r.get("outcome"), r.get("exc", "")), "expand() did not return normally: %r" % (r,), {"lib": [], "page": c["page"], "opts": {}, "title": "Tt"})
+            continue
+        pa = r["page_ast"]
+        if len(pa) != 1 or isinstance(pa[0], int) or pa[0][0] != "T" or any(not isinstance(y, int) for a in pa[0][1] for y in a) \
+                or pa[0][1][0][:8] != [35, 115, 119, 105, 116, 99, 104, 58] or len(pa[0][1]) < 2 or any(61 not in a for a in pa[0][1][1:-1]):
+            run.correspondence_break("a generated #switch call was not read as one call with plain keyed cases and a final item", {"lib": [], "page": c["page"], "opts": {}, "title": "Tt"}, page_ast=pa)
+            continue
+        coq_cases.append("(%s, %s, %s, %s)" % (G.coq_enc(pa[0][1][0][8:]), clist(pa[0][1][1:-1], kv, "enc * enc"), G.coq_enc(pa[0][1][-1]), cstr(r["out"])))
+        idx.append(i)
+    bad, errs = lib.coq_eval_failing("c04w", IMPORTS + ["Model.FlatCall"], "enc * list (enc * enc) * enc * str", coq_cases,
+                                     "fun '(x, cs, l, o) => forallb case_ok cs && bare_ok l && str_eqb (codes (add_newline (switch_trailing_result (strip_i x) cs l))) o",
+                                     chunk=350)
+    for e in errs:
+        run.correspondence_break("model evaluation failed (#switch trailing-default rule)", None, error=e)
+    for b in bad:
+        c = cases[idx[b]]
+        run.property_failure("c04:switch-differs-from-its-rule", "expand(%r) gave %r; Model.FlatCall.switch_trailing_result says otherwise"
+                             % (c["page"], res[idx[b]]["out"]), {"lib": [], "page": c["page"], "opts": {}, "title": "Tt"})
+    run.extra["switch_calls_with_a_trailing_default_checked_against_the_rule"] = len(coq_cases)
 
 
 def nested_rule(run, quick):
